@@ -317,6 +317,27 @@ N_Elect(n, reach, lag) ==
                  !.caught = [r \in R |-> FALSE],
                  !.taint = taint \cup UNION {res(f)[3] : f \in fol}]
 
+\* ---- the stream is paused and resumed (PAUSE_STREAM then RESUME_STREAM applied by
+\* every live replica): each partition object is closed (HW checkpointed) and REPLACED
+\* by a new one built from the current metadata, the leader starts leading again,
+\* then the followers reconcile against it.  Volatile state (commit queue, replica
+\* offsets, health flags) starts afresh.
+G_PauseResume == Leading(Leader) /\ lagging = {}
+N_PauseResume ==
+  LET l == Leader
+      ecl == Assign(ReopenEc(ec[l], log[l]), meta.lepoch, Newest(l))
+      fol == {f \in R : up[f] /\ f # l}
+      res(f) == Reconcile(f, l, ecl, log[f], ReopenEc(ec[f], log[f]), TRUE)
+  IN [Cur EXCEPT !.meta = [meta EXCEPT !.idx = @ + 2],
+                 !.pend = [r \in R |-> IF up[r] THEN <<>> ELSE pend[r]],
+                 !.hwDisk = [r \in R |-> IF up[r] THEN hw[r] ELSE hwDisk[r]],
+                 !.isrOff = [r \in R |-> IF up[r] THEN [x \in meta.isr |-> IF x = r THEN Newest(r) ELSE -1] ELSE isrOff[r]],
+                 !.caught = [r \in R |-> FALSE],
+                 !.log = [r \in R |-> IF r \in fol THEN res(r)[1] ELSE log[r]],
+                 !.ec = [r \in R |-> IF r = l THEN ecl ELSE IF r \in fol THEN res(r)[2] ELSE ec[r]],
+                 !.taint = taint \cup UNION {res(f)[3] : f \in fol}]
+
+DoPauseResume == G_PauseResume /\ Step(N_PauseResume)
 DoPublish(recs) == G_Publish(recs) /\ Step(N_Publish(recs))
 DoPublishRejected(v) == G_PublishRejected(v) /\ Step(N_PublishRejected(v))
 DoFetch(f, late) == G_Fetch(f) /\ Step(N_Fetch(f, late))
